@@ -266,14 +266,22 @@ def vanished_names(model, live_fi, ref_fi):
         if isinstance(n, ast.Attribute) and isinstance(n.value, ast.Name) \
                 and n.value.id == selfn:
             names.add(n.attr)
-    src_ = live_fi.module.source
+    mods = [live_fi.module]
     if live_fi.cls is not None:
         for k in model.mro(live_fi.cls.qualname):
             c = model.classes.get(k)
-            if c is not None and c.module is not live_fi.module:
-                src_ += c.module.source
-    return sorted(n for n in names
-                  if not _re.search(r"\b%s\b" % _re.escape(n), src_))
+            if c is not None and c.module not in mods:
+                mods.append(c.module)
+    idents = set()
+    for mod in mods:
+        for n in ast.walk(mod.tree):
+            if isinstance(n, ast.Attribute):
+                idents.add(n.attr)
+            elif isinstance(n, ast.Name):
+                idents.add(n.id)
+            elif isinstance(n, (ast.FunctionDef, ast.ClassDef)):
+                idents.add(n.name)
+    return sorted(n for n in names if n not in idents)
 
 
 def _compare(program, live_fi, ref_fi, effects=default_effects,
